@@ -554,6 +554,9 @@ func forceCollision(t *rapid.T, c *Case, i, j int) {
 		// all 29 item kinds of the adjustment path, uniformly
 		all := append(append(append([]string{}, removableFams...), keyedSetFams...), "args", "cgroups", "oom")
 		all = append(all, scalarFams...)
+		// the removable families have the richest ownership rules (release by a marker, either
+		// list order): three times the weight of the others
+		all = append(append(all, removableFams...), removableFams...)
 		op.Fam = gen.Pick(t, "cfam", all)
 		op.Key = rapid.SampledFrom(keysOf(op.Fam)).Draw(t, "ckey")
 		op.Act = "set"
@@ -572,7 +575,7 @@ func forceCollision(t *rapid.T, c *Case, i, j int) {
 					o.ValOf = fmt.Sprintf("p%d", c.Chain[i].Plugin) // the later one writes the same value as the earlier
 				}
 			}
-			if n == 0 && has(removableFams, op.Fam) && rapid.IntRange(0, 3).Draw(t, "cfirstreset") == 0 {
+			if n == 0 && has(removableFams, op.Fam) && gen.Uniform(t, "cfirstreset", 3) == 0 {
 				// the first collider may itself remove-then-set (either list order): it still owns the item
 				o.Act = "reset"
 				o.Rev = op.Fam != "ann" && rapid.Bool().Draw(t, "crev")
